@@ -11,7 +11,10 @@ def mutations(name, valid):
     """misspellings of one catalogue name that are not themselves catalogue names"""
     cand = [name.upper(), name + "0", name + "x", name[:-1], name[1:], " " + name, name + " ", name + "_", "_" + name,
             name.replace("_", "", 1), name.replace("_", "-", 1), name.replace("-", "", 1), name.replace("-", "_", 1),
-            name[::-1], name + "_" + name if "_" not in name and len(name) > 6 else name + "__" + name]
+            name[::-1], name + "_" + name if "_" not in name and len(name) > 6 else name + "__" + name,
+            # one tensor factor too many / repeated factors (product names beyond the catalogued system sizes)
+            name + "_" + name.split("_")[0], "_".join([name.split("_")[0]] * 3), "_".join([name.split("_")[0]] * 4),
+            "_".join([name.split("_")[-1]] * 3)]
     seen, out = set(), []
     for m in cand:
         if m != name and m not in valid and m not in seen:
@@ -44,6 +47,8 @@ def mclass(name, m):
         return "dangling-underscore"
     if len(m) < len(name):
         return "truncated"
+    if m.replace("_", "") != "" and set(m.split("_")) <= set(name.split("_")) and len(m.split("_")) > len(name.split("_")):
+        return "extra-factor"
     return "altered"
 
 
